@@ -12,7 +12,7 @@ def run(ctx):
     ctx.assumptions += ["crash model = process death between two filesystem operations: completed writes/renames/removes survive, nothing is torn (power loss is outside the property)",
                         "filesystem calls succeed until the crash", "single crash (no second crash during recovery)"]
     ctx.prepare()
-    ctx.lean(["Crng.Props.C08"], ["Crng.Props.C08.crash_recovery"])
+    ctx.lean(["Crng.Props.C08"], ["Crng.Props.C08.crash_recovery", "Crng.Props.C08.crash_recovery_history"])
     rnd = ctx.rng("c08")
     cases = dqgen.gen_cases(rnd, ctx.scale(90, 1500), ctx.scale(26, 40), "h")
     cases += dqgen.gen_cases(rnd, ctx.scale(30, 500), 20, "big", maxbs=(1, 4, 7, 10), ses=(1, 2, 5), sizes=(0, 2, 3, 4, 6, 7, 11, 25), reopen_p=0.12)
